@@ -77,14 +77,15 @@ def stackKiB : Nat := 8192
 def blockLimit : Nat := 100
 
 /-- measured bounds on the stack cost of one nesting level (KiB, harness build profile = debug, opt-level 0): the observed
-    first failing depths were paren 95, sqbr 62, brace 58, call 50, index 76, unary 93, lambda 195, mixed 63; the bounds are
+    first failing depths (Lexer -> Parser -> Desugarer) were paren 95, sqbr 62, brace 58, call 50, index 74, unary 80, lambda 80,
+    block 81, mixed 63; the bounds are
     8192/threshold -12% / +12% -/
 def costLo : Kind → Nat
-  | .paren => 76 | .sqbr => 116 | .brace => 124 | .call => 144 | .index => 95 | .unary => 77 | .lambda => 37 | .mixed => 114
-  | .block => 0
+  | .paren => 76 | .sqbr => 116 | .brace => 124 | .call => 144 | .index => 97 | .unary => 90 | .lambda => 90 | .mixed => 114
+  | .block => 89
 def costHi : Kind → Nat
-  | .paren => 97 | .sqbr => 148 | .brace => 158 | .call => 184 | .index => 121 | .unary => 99 | .lambda => 47 | .mixed => 146
-  | .block => 18
+  | .paren => 97 | .sqbr => 148 | .brace => 158 | .call => 184 | .index => 124 | .unary => 115 | .lambda => 115 | .mixed => 146
+  | .block => 114
 
 inductive Outcome where
   | ok | err | overflow
